@@ -2,6 +2,7 @@ package main
 
 import (
 	"fmt"
+	"sync/atomic"
 	"strconv"
 	"strings"
 
@@ -176,6 +177,10 @@ func doEq(j *sup.Job, res *sup.Result) {
 	}
 	lenv := types.ProduceLabelledSessionTypeEnvironment(*env.Types)
 	types.VerifResetSteps()
+	// a correct algorithm visits every pair of names at most once: a million steps per query
+	// is far beyond that for any environment used here
+	atomic.StoreInt64(&types.VerifBudget, 1000000*int64(len(j.Queries)+1))
+	defer atomic.StoreInt64(&types.VerifBudget, 0)
 	for _, q := range j.Queries {
 		a, b := resolve(q.A, *env.Types), resolve(q.B, *env.Types)
 		if a == nil || b == nil {
